@@ -230,6 +230,23 @@ def budget (input implOut : Sexp) : Option Verdict := do
     | _ => pure { agree, holds := false, cls := "err", model }
   | _ => none
 
+/-- `(fa ID (reg …) …)`: the firefly skeleton with evaluator identifier `ID`; the evaluator registered
+under `ID` counts into probe A, a different evaluator registered under the other identifier into
+probe G. Model: every evaluation (population steps and single moves) goes through `Evaluator<P, ID>`
+and is counted. -/
+def fa (_input implOut : Sexp) : Option Verdict := do
+  match implOut with
+  | .list [.list [.atom "res", r], .list [.atom "evals", e], .list [.atom "callsA", a], .list [.atom "callsG", g]] =>
+    let e ← optNat? e
+    let a ← nat? a
+    let g ← nat? g
+    let okRes := Sexp.beq r (.atom "ok")
+    let cls := if !okRes then "err" else if g != 0 then "wrong-evaluator" else if e != some a then "count" else "-"
+    let model := Sexp.list [.list [.atom "res", .atom "ok"], .list [.atom "evals", ofNat a], .list [.atom "callsA", ofNat a],
+                            .list [.atom "callsG", ofNat 0]]
+    pure { agree := Sexp.beq model implOut, holds := cls == "-", cls, model }
+  | _ => none
+
 /-! Run level: the trace of leaf steps of a template run. -/
 
 inductive REv where
@@ -522,6 +539,9 @@ def ApiOp.parse? : Sexp → Option (ApiOp Int)
   | .list [.atom "solmut", i, w] => do pure (.solMut (← nat? i) (← optSol? w))
   | .list [.atom "intosol", i] => (nat? i).map .intoSol
   | .list [.atom "clone", i] => (nat? i).map .clone
+  | .list [.atom "clonefrom", i, j] => do pure (.cloneFrom (← nat? i) (← nat? j))
+  | .list (.atom "vclonefrom" :: is) => (is.mapM ind?).map .vecCloneFrom
+  | .list (.atom "sclonefrom" :: is) => (is.mapM ind?).map .sliceCloneFrom
   | .list [.atom "iseval", i] => (nat? i).map .isEval
   | .list [.atom "getobj", i] => (nat? i).map .getObj
   | .list [.atom "obj", i] => (nat? i).map .objective
@@ -549,6 +569,11 @@ def ofOut : ApiOut Int → Sexp
   | .errEmpty => .list [.atom "e", .atom "empty"]
   | .errMany n => .list [.atom "e", .atom "many", ofNat n]
 
+def validB (f : Nat → Int) (i : I) : Bool :=
+  match i.obj with
+  | none => true
+  | some o => o == f i.sol
+
 /-- Ghost "taint": a member may legitimately carry a value ≠ f(sol) only if a raw writer
 (`new` / `set_objective` / `evaluate_with` with a foreign closure) put it there and it was copied. -/
 def taintStep (f : Nat → Int) (p : List I) (t : List Bool) : ApiOp Int → List Bool
@@ -560,15 +585,13 @@ def taintStep (f : Nat → Int) (p : List I) (t : List Bool) : ApiOp Int → Lis
   | .solMut i _ => t.set i false
   | .intoSol i => if i < p.length then t.eraseIdx i else t
   | .clone i => match t[i]? with | some b => t ++ [b] | none => t
+  | .cloneFrom i j => match t[j]? with | some b => t.set i b | none => t
+  | .vecCloneFrom src => src.map fun x => !validB f x
+  | .sliceCloneFrom src => if p.length = src.length then src.map fun x => !validB f x else t
   | .asSolsMut _ => t.map fun _ => false
   | .intoSols => []
   | .intoInds ss => t ++ ss.map fun _ => false
   | _ => t
-
-def validB (f : Nat → Int) (i : I) : Bool :=
-  match i.obj with
-  | none => true
-  | some o => o == f i.sol
 
 /-- The property on the implementation's population after one op. -/
 def holdsStep (f : Nat → Int) (op : ApiOp Int) (taint : List Bool) (implPop : List I) : String :=
@@ -685,6 +708,44 @@ def run (_input implOut : Sexp) : Option Verdict := do
     let model := Sexp.list [.list [.atom "stale", .atom "none"],
                             .list (.atom "mismatch" :: (ls.filter (!·.ok)).map fun l => .atom l.name)]
     pure { agree := noStale && leavesOk, holds := noStale, cls := if noStale then "-" else "stale", model }
+  | _ => none
+
+/-! Component level: a solution-modifying component executed on a prepared stack of EVALUATED
+populations; afterwards every individual is reported as `t` (evaluated, value = raw_f(solution)),
+`f` (unevaluated) or `s` (evaluated but STALE). -/
+
+def findTag (tag : String) : List Sexp → Option (List Sexp)
+  | [] => none
+  | x :: xs => match tagged? tag x with | some r => some r | none => findTag tag xs
+
+def flagsOf : Sexp → Option (List String)
+  | .list xs => xs.mapM atom?
+  | _ => none
+
+def comp (input implOut : Sexp) : Option Verdict := do
+  match input with
+  | .list (.atom "comp" :: .atom name :: rest) =>
+    let pops ← findTag "pops" rest
+    let inTop := match pops.head? with | some (.list xs) => xs.length | _ => 0
+    match implOut with
+    | .list [.list [.atom "res", r], .list (.atom "stack" :: st)] =>
+      let st ← st.mapM flagsOf
+      let ok := Sexp.beq r (.atom "ok")
+      let kind := kindOf name
+      let top := st.headD []
+      let below := st.drop 1
+      let belowKept := below.all fun p => p.all (· == "t")
+      let agree :=
+        if !ok then true
+        else match kind with
+          | .unevalTop => st.length == pops.length && top.length == inTop && top.all (· == "f") && belowKept
+          | .newTop => st.length == pops.length && top.all (· == "f") && belowKept
+          | _ => true
+      let stale := st.any fun p => p.any (· == "s")
+      let model := Sexp.list [.atom "kind", .atom (match kind with
+        | .unevalTop => "unevalTop" | .newTop => "newTop" | _ => "any")]
+      pure { agree, holds := !stale, cls := if stale then "stale" else "-", model }
+    | _ => none
   | _ => none
 
 end C05
